@@ -27,6 +27,8 @@ struct Scenario {
 void ev(const char* e, const char* op, long a = 0, long b = 0, long r = 0, long v = 0);
 // Operation brackets (history level). call() logs "call", ret() logs "ret".
 void call(const char* op, long a = 0, long b = 0);
+// same, for operations that are documented as blocking (excluded from the solo / lock-freedom probe, C16)
+void call_blocking(const char* op, long a = 0, long b = 0);
 void ret(long r = 0, long v = 0);
 int tid();                 // logical client thread id, 9 on the main thread
 void point();              // harness-inserted scheduling point (e.g. inside a user functor)
